@@ -728,6 +728,15 @@ impl ReloadId {
         }
         newer
     }
+
+    /// Hook for external verification harnesses (`--cfg assets_manager_verif`):
+    /// builds a `ReloadId` from the raw value of its counter.
+    #[cfg(assets_manager_verif)]
+    #[doc(hidden)]
+    #[inline]
+    pub const fn verif_from_raw(raw: usize) -> Self {
+        Self(raw)
+    }
 }
 
 impl Default for ReloadId {
